@@ -399,6 +399,141 @@ pub async fn mutated_initials(tier: Tier) -> Result<u64, Violation> {
     garbage_family("mutated-initial", fam).await
 }
 
+/// how the relay rewrites the token of the listener's Retry before the genuine client echoes it
+#[derive(Clone, Copy, Debug)]
+pub enum TokenEdit {
+    Keep,
+    Truncate(usize),
+    Extend(usize),
+    Flip(usize),
+}
+
+/// One connection attempt through a relay that sits between the genuine quiche client and the
+/// listener and re-mints the listener's Retry (`quiche::retry`, valid integrity tag) with an edited
+/// token. Returns (length of the genuine token, handshake established, a Retry was rewritten).
+async fn relay_once(ep: SocketAddr, edit: TokenEdit) -> Result<(usize, bool, bool), String> {
+    let bind = || -> Result<std::net::UdpSocket, String> {
+        let s = std::net::UdpSocket::bind("127.0.0.1:0").map_err(|e| e.to_string())?;
+        s.set_nonblocking(true).map_err(|e| e.to_string())?;
+        Ok(s)
+    };
+    let (front, back) = (bind()?, bind()?);
+    let mut cl = QuicClient::new(front.local_addr().map_err(|e| e.to_string())?, &ClientOpts::default())?;
+    let mut client_addr = None;
+    let mut ids: Option<(Vec<u8>, Vec<u8>)> = None; // (original destination id, client's source id)
+    let mut token_len = 0usize;
+    let mut rewritten: Option<std::time::Instant> = None;
+    let t0 = std::time::Instant::now();
+    let mut buf = [0u8; 65535];
+    let keep = matches!(edit, TokenEdit::Keep);
+    loop {
+        cl.pump();
+        while let Ok((n, from)) = front.recv_from(&mut buf) {
+            client_addr = Some(from);
+            if ids.is_none() {
+                let mut copy = buf[..n].to_vec();
+                if let Ok(h) = quiche::Header::from_slice(&mut copy, quiche::MAX_CONN_ID_LEN) {
+                    ids = Some((h.dcid.to_vec(), h.scid.to_vec()));
+                }
+            }
+            let _ = back.send_to(&buf[..n], ep);
+        }
+        door::spin(3).await;
+        tokio::time::sleep(Duration::from_millis(1)).await;
+        while let Ok((n, _)) = back.recv_from(&mut buf) {
+            let Some(to) = client_addr else { continue };
+            let mut copy = buf[..n].to_vec();
+            let retry = quiche::Header::from_slice(&mut copy, quiche::MAX_CONN_ID_LEN).ok().filter(|h| h.ty == quiche::Type::Retry);
+            match (retry, &ids) {
+                (Some(h), Some((odcid, cscid))) if rewritten.is_none() => {
+                    let token = h.token.clone().unwrap_or_default();
+                    token_len = token.len();
+                    let edited: Vec<u8> = match edit {
+                        TokenEdit::Keep => token.clone(),
+                        TokenEdit::Truncate(k) => token[..k.min(token.len())].to_vec(),
+                        TokenEdit::Extend(k) => [token.clone(), vec![0xa7; k]].concat(),
+                        TokenEdit::Flip(i) => {
+                            let mut t = token.clone();
+                            if let Some(b) = t.get_mut(i) {
+                                *b ^= 0x01;
+                            }
+                            t
+                        }
+                    };
+                    let mut out = [0u8; 1500];
+                    let len = quiche::retry(&quiche::ConnectionId::from_ref(cscid), &quiche::ConnectionId::from_ref(odcid), &h.scid, &edited, h.version, &mut out).map_err(|e| format!("re-minting the Retry: {e}"))?;
+                    let _ = front.send_to(&out[..len], to);
+                    rewritten = Some(std::time::Instant::now());
+                }
+                _ => {
+                    let _ = front.send_to(&buf[..n], to);
+                }
+            }
+        }
+        if cl.conn.is_established() || cl.conn.is_closed() {
+            break;
+        }
+        if !keep && rewritten.map(|t| t.elapsed() > Duration::from_millis(120)).unwrap_or(false) {
+            break;
+        }
+        if t0.elapsed() > Duration::from_secs(4) {
+            break;
+        }
+    }
+    let established = cl.conn.is_established();
+    cl.close();
+    Ok((token_len, established, rewritten.is_some()))
+}
+
+/// C09 (and the address-validation half of the QUIC door): the genuine client echoes every
+/// truncation of the listener's Retry token, the token extended, and the token with one bit flipped
+/// at each position. None of them may end the listener or leave it deaf; the
+/// unedited token through the same relay must complete the handshake (positive control).
+pub async fn retry_token_cases(tier: Tier) -> Result<u64, Violation> {
+    let mach = |e: String| Violation::new("C09:machinery", e, json!({}));
+    let ep = start(Cfg { clients: users(), ..Cfg::default() }).await.map_err(mach)?;
+    let (len, ok, rewritten) = relay_once(ep.addr, TokenEdit::Keep).await.map_err(mach)?;
+    if !rewritten || !ok || len == 0 {
+        return Err(mach(format!("positive control failed: retry seen={rewritten} established={ok} token length={len}")));
+    }
+    let mut edits: Vec<TokenEdit> = (0..len).map(TokenEdit::Truncate).collect();
+    edits.extend([1usize, 2, 6, 18, 40].map(TokenEdit::Extend));
+    let step = tier.pick(3usize, 1usize);
+    edits.extend((0..len).step_by(step).map(TokenEdit::Flip));
+    let mut n = 1u64;
+    let mut accepted = 0u64;
+    for e in edits {
+        let case = json!({"kind":"quic-retry-token","edit":format!("{e:?}")});
+        let (_, established, _) = relay_once(ep.addr, e).await.map_err(mach)?;
+        n += 1;
+        door::spin(10).await;
+        if ep.task.is_finished() {
+            return Err(Violation::new(format!("C09:quic-datagram:listener-ended:retry-token:{}", edit_class(e)), format!("Core::listen ended after a client echoed the Retry token edited as {e:?} (genuine length {len})"), case));
+        }
+        // Whether an edited token still validates the address is not C09's business (a token cut
+        // after the address part still proves the address and is accepted): counted, not judged.
+        if established {
+            accepted += 1;
+        }
+    }
+    let mut cl = QuicClient::new(ep.addr, &ClientOpts::default()).map_err(mach)?;
+    if !cl.handshake(Duration::from_secs(4)).await {
+        return Err(Violation::new("C09:quic-datagram:listener-deaf:retry-token", format!("after {n} edited Retry tokens a regular QUIC handshake no longer completes"), json!({"kind":"quic-retry-token"})));
+    }
+    cl.close();
+    let _ = accepted;
+    Ok(n)
+}
+
+fn edit_class(e: TokenEdit) -> &'static str {
+    match e {
+        TokenEdit::Keep => "keep",
+        TokenEdit::Truncate(_) => "truncated",
+        TokenEdit::Extend(_) => "extended",
+        TokenEdit::Flip(_) => "bit-flipped",
+    }
+}
+
 // ------------------------------------------------------------------------------------------------
 // C19 over QUIC: shutdown closes the connection
 // ------------------------------------------------------------------------------------------------
@@ -1671,6 +1806,15 @@ pub fn c09_into(rep: &mut Report, tier: Tier) {
         Ok(Err(v)) => rep.violation(v),
         Err(p) => rep.violation(Violation::new("C09:quic-datagram:panic:mutated-initial", p, json!({"kind":"quic-garbage","family":"mutated-initial"}))),
     }
+    match super::guarded(|| run_blocking(retry_token_cases(tier))) {
+        Ok(Ok(k)) => {
+            n += k;
+            rep.sub.push(json!({"sub":"quic-retry-tokens","cases":k,"completed":true,
+                "domain":"a relay between the genuine quiche client and the listener re-mints the listener's Retry (valid integrity tag) with the token: unedited (positive control: handshake completes), every truncation 0..len, extended by 1/2/6/18/40 bytes, one bit flipped at every (thorough) / every third (quick) position; after each the listener task is alive, and a regular handshake still completes at the end (whether an edited token is still accepted is not judged: C09 does not state it)"}));
+        }
+        Ok(Err(v)) => rep.violation(v),
+        Err(p) => rep.violation(Violation::new("C09:quic-datagram:panic:retry-token", p, json!({"kind":"quic-retry-token"}))),
+    }
     rep.add("evaluations", n);
     rep.sub.push(json!({"sub":"quic-datagrams","cases":n,"completed":true,
         "domain":"UDP datagrams to the real listener: all strings <= 4/5 bytes over {00,01,40,7f,80,c0,c3,ff}; long-header shapes (6 first bytes x 5 versions x 5x5 connection-id lengths x 6 token lengths x 3 sizes); every single-byte mutation (6 values) of the first 48/200 bytes and every truncation of a genuine Initial, the same Initial 50 times and coalesced; after each family the listener task is alive and a regular handshake completes"}));
@@ -1713,6 +1857,7 @@ pub fn replay(case: &serde_json::Value) -> Option<Result<(), Violation>> {
             }
         }
         "quic-shutdown" => run_blocking(shutdown_case()).map(|_| ()),
+        "quic-retry-token" => run_blocking(retry_token_cases(Tier::Quick)).map(|_| ()),
         "quic-outcome" => {
             let o = H3_OUTCOMES.into_iter().find(|x| Some(*x) == case["outcome"].as_str()).unwrap_or("connected");
             run_blocking(outcome_case(o)).map(|_| ())
